@@ -28,6 +28,9 @@ MRAR = ["44", "45"]
 
 
 def isfn(reg):
+    if reg == "53":
+        from pyModeS.decoder.bds import bds53
+        return bds53.is53
     return getattr(getattr(pms.bds, "bds" + reg), "is" + reg)
 
 
@@ -67,6 +70,12 @@ def content(draw, reg):
             lo, hi = (0, 300) if gs is None else (max(0, gs - 100), min(300, gs + 100))
             tas = edge(lo, hi)
             mb = P(P(mb, 46, 46, 1), 47, 56, tas)
+    elif reg == "53":
+        for stb, sg, first, last in R.STATUS["53"]:
+            if u(0, 4):
+                mb = P(P(mb, stb, stb, 1), first, last, u(0, min(400, (1 << (last - first + 1)) - 1) if first in (14, 35) else (110 if first == 25 else (1 << (last - first + 1)) - 1)))
+                if sg:
+                    mb = P(mb, sg, sg, u(0, 1))
     elif reg == "60":
         if u(0, 4):
             mb = P(P(P(mb, 1, 1, 1), 2, 2, u(0, 1)), 3, 12, u(0, 1023))
@@ -182,7 +191,7 @@ def chk_valid(c, note):
 # ------------------------------------------------------------------ soundness
 @st.composite
 def s_broken(draw):
-    reg = draw(st.sampled_from(LABELS + MRAR + ["50", "60", "40", "45"]))
+    reg = draw(st.sampled_from(LABELS + MRAR + ["50", "60", "40", "45", "53"]))
     mb = draw(content(reg))
     kinds = []
     if reg in R.STATUS:
